@@ -12,6 +12,26 @@ def describe(ev):
     return ("c15:jet-answer", "an introspection jet's answer is not the field of the supplied data (%d inputs, %d outputs, ix %s); see the replay file, answers vs ElementsEnv.tla J"
             % (len(d["inputs"]), len(d["outputs"]), d["ix"]))
 
+def hash_jets(c, label):
+    """phase 2 for the aggregate hash jets: TLC printed, per environment, the symbolic digest of every hash-jet answer
+    (TERMS); the harness hashes the terms with real SHA-256 and compares them with what the jets returned"""
+    terms = tla_to_json_lines(c.last_trace_prints, "TERMS")
+    tp = os.path.join(c.work, "terms-%s.ndjson" % label)
+    with open(tp, "w") as f:
+        for t in terms:
+            f.write(json.dumps(t) + "\n")
+    _, out = c.vh(["c15", "concretise", tp], timeout=3000)
+    n = 0
+    for l in out.split("\n"):
+        if not l.strip(): continue
+        r = json.loads(l)
+        n += r["n"]
+        c.evaluations += r["n"]
+        for b in r["bad"]:
+            c.report("c15:hash-jet", "environment %s of the %s set: %s(%s) returned %s, which is not the SHA-256 of the data ElementsEnv.tla prescribes%s"
+                     % (r["ev"], label, b["jet"], b["arg"], b.get("got"), (" (" + b["error"] + ")") if "error" in b else ""), {"event": r["ev"], "set": label, "mismatch": b})
+    c.extra["hash_jet_answers_checked_" + label] = n
+
 def body(c):
     q = not c.thorough
     atoms = os.path.join(c.work, "atoms.json")
@@ -28,10 +48,12 @@ def body(c):
     rp = os.path.join(c.work, "replayed.ndjson")
     c.vh(["c15", "replay", cpath, rp], timeout=3400)
     validate_trace(c, "Trace_ElementsEnv", "Trace_ElementsEnv.cfg", rp, describe, heap="12g", timeout=3400)
+    hash_jets(c, "enumerated")
     # ---- impl -> spec: random transactions
     rec = os.path.join(c.work, "recorded.ndjson")
     c.vh(["c15", "record", 2000 if q else 30000, rec], timeout=3400)
     validate_trace(c, "Trace_ElementsEnv", "Trace_ElementsEnv.cfg", rec, describe, heap="12g", timeout=3400)
+    hash_jets(c, "random")
     jets, shapes, answers = Counter(), Counter(), 0
     for path in (rp, rec):
         for k, e in enumerate(read_ndjson(path)):
@@ -56,11 +78,11 @@ def body(c):
     c.assumptions += ["hashes of variable-length data (scripts, annex, proofs, push data), the transaction id and the issuance-derived entropy / asset / token ids are computed outside the crate (bitcoin_hashes, elements::Transaction::txid, elements::AssetId) and carried in the description",
                       "a pegin input carries a well-formed pegin witness and vice versa; the annex is, as the crate documents, the last witness item if it starts with 0x50 (BIP 341 additionally requires a second item; single-item stacks are generated and follow the crate's rule)",
                       "null assets / amounts / nonces read as libsimplicity documents them: even-parity point with x = 0, explicit 0, absent",
-                      "aggregate *_hash jets are not specified field by field; the signature-hash clause compares the environment's sighash_all with the sig_all_hash jet"]
+                      "the 28 aggregate hash jets (incl. tx_hash, tap_env_hash, sig_all_hash) are specified as symbolic SHA-256 terms over the fields; TLC prints the terms, the harness hashes them (bitcoin_hashes) and compares with the jets' answers; the environment's sighash_all must equal the sig_all_hash jet"]
     c.finish_kw = dict(exhaustive=True, rule=(
         "TLC: 6 input templates x 6 output templates in all sequences of length 0..2, x version {1,2} x lock time {0, 100, 500000000} x current index 0..2 x "
         "taproot path {0,2}: current_* = indexed jet at ix, out-of-range = none, lock height/time exclusive, check_* succeed exactly up to tx_*, issuance jets consistent, "
-        "fee totals; emitted environments and random transactions are built with ElementsEnv::new, 62 introspection jets run on every index incl. out-of-range ones, every answer = J(name, env, arg)"))
+        "fee totals; emitted environments and random transactions are built with ElementsEnv::new, 62 field jets and 28 hash jets run on every index incl. out-of-range ones, every answer = J(name, env, arg) / SHA-256 of JH(name, env, arg)"))
 
 if __name__ == "__main__":
     main("C15", body)
